@@ -172,6 +172,8 @@ func (s *ServerDnsListener) closeConnection(u *userConnection) error {
 	s.connections[u.UserId] = nil
 	s.oldConnections[u.UserId] = u
 	u.closed = true
+	// Release whoever is blocked in Read (the multiplexer's receive loop)
+	u.in.Close()
 
 	return nil
 }
